@@ -4,6 +4,9 @@
  *   c16_acct_begin()            open the window, forget everything
  *   c16_acct_live()             tracked blocks still allocated
  *   c16_acct_fail_at(k)         the k-th (1-based) tracked malloc from now returns NULL (0 = never)
+ *   c16_acct_fill(on, v)        while on, every tracked malloc'ed block is filled with the repeating 64-bit word v
+ *                               (malloc promises nothing about fresh memory: a field the code never writes then
+ *                               reads as v instead of whatever the allocator happened to leave there)
  * Under the deterministic scheduler each tracked malloc/free made by a scheduled thread is
  * also written to the trace as a note ("R <tid> malloc <id>" / "R <tid> free <id>"). */
 #include <stddef.h>
@@ -24,6 +27,9 @@ static volatile int lock_word;
 static int window, live, next_id, fail_at, malloc_count;
 static long total_mallocs, total_frees;
 int c16_acct_notes = 1;
+static int fill_on;
+static uint64_t fill_val;
+void c16_acct_fill(int on, uint64_t v) { fill_on = on; fill_val = v; }
 
 static void lk(void) { while (__atomic_exchange_n(&lock_word, 1, __ATOMIC_ACQUIRE)) { } }
 static void ul(void) { __atomic_store_n(&lock_word, 0, __ATOMIC_RELEASE); }
@@ -88,6 +94,11 @@ void *__wrap_malloc(size_t n)
 	lk();
 	if (window && p) id = track(p);
 	ul();
+	if (window && p && fill_on) {
+		size_t k = 0;
+		for (; k + 8 <= n; k += 8) memcpy((char *)p + k, &fill_val, 8);
+		if (k < n) memcpy((char *)p + k, &fill_val, n - k);
+	}
 	note("malloc", id);
 	return p;
 }
